@@ -1,5 +1,6 @@
 (** C04: actions run once each, in derivation order, with the right captured text. *)
-From PegV Require Import Model.Link Proofs.LinkProofs Base.Tac Spec.Syntax Spec.Peg Spec.Tokens Model.Machine Model.Runtime Model.Gen Proofs.Top Properties.Example Model.Analyses Model.Emit Model.SEmit Model.Exec Proofs.SEmitFile.
+From PegV Require Import Model.Link Proofs.LinkProofs Base.Tac Spec.Syntax Spec.Peg Spec.Tokens Model.Machine Model.Runtime Model.Gen Proofs.Top Properties.Example Model.Analyses Model.Emit Model.SEmit Model.Exec Proofs.SEmitFile Spec.WF Model.Optimize Model.Premises Proofs.OptSound Proofs.ParseTop.
+Local Open Scope nat_scope.
 
 (** Execute() over the tokens of a successful parse produces exactly the trace obtained by walking
     the derivation forest left to right: each action node of the derivation emits once, in order,
@@ -27,6 +28,25 @@ Print Assumptions C04_generated_code_actions.
 
 (** non-vacuity: on "aby" the action of the abandoned first alternative does not run again;
     Action0 runs once with text = [0,2) *)
+(** ... and with no side condition and no hypothesis that the semantics has a result (Proofs/ParseTop.v): for every grammar
+    with a well-formedness certificate, every combination of memo table / -inline / -switch ([tree_of sw g] is the
+    optimised tree), every input and every earlier parser state - when the grammar as written accepts a prefix with
+    derivation forest [f], every execution of the call Parse() makes returns true and Execute() over the tokens it
+    has recorded runs the actions of the derivation in order, each with the most recently completed capture. *)
+Theorem C04_generated_parser_actions :
+  forall g tab rank, wf_b g tab rank = true -> good_grammar g ->
+  (forall r b, nth_error g r = Some (RBody b) -> ranges_ok b = true) ->
+  grammar_alt2 g -> closed_names g ->
+  forall ptx buf penv, good_buf buf -> valid_buf buf ->
+  forall memo inline sw rb st0,
+    nth_error g 0 = Some rb -> rb <> RNil ->
+    exists n res evs, peg_parse g ptx buf penv n 0 = Some (res, evs) /\
+      forall p f, res = Succ p f ->
+      forall out, xcall buf penv (mk_opts true memo inline (tree_of sw g)) (gen_fn (tree_of sw g) ptx inline) 0 (reset st0) out ->
+        exists st', out = Ret true st' /\ execute g ptx (live st') (0, 0) = fst (trace_forest g ptx f (0, 0)).
+Proof. exact generated_parser_actions. Qed.
+Print Assumptions C04_generated_parser_actions.
+
 (** Which action is which: Compile's first passes (Model/Link.v, compared with the implementation's
     linked tree for every grammar of the run) number the actions in the order they are met - pre-order
     over the rules in definition order -, give each a rule of its own that carries that number, in
